@@ -3963,6 +3963,10 @@ where
             let base_seed = self.heuristic_rebuild_base_seed();
             let seeds = config.resolve_seeds(base_seed);
             let (candidate, stats, used_seeds) = self.rebuild_with_heuristic(seeds)?;
+            candidate
+                .tri
+                .tds
+                .advance_generation_past(self.tri.tds.generation());
             *self = candidate;
             return Ok(DelaunayRepairOutcome {
                 stats,
@@ -3987,6 +3991,10 @@ where
                 let base_seed = self.heuristic_rebuild_base_seed();
                 let seeds = config.resolve_seeds(base_seed);
                 let (candidate, stats, used_seeds) = self.rebuild_with_heuristic(seeds)?;
+                candidate
+                    .tri
+                    .tds
+                    .advance_generation_past(self.tri.tds.generation());
                 *self = candidate;
                 Ok(DelaunayRepairOutcome {
                     stats,
